@@ -187,3 +187,10 @@ bounded_only('C18', 'bounded.c18',
     ['FeatureStructure.unify', 'get_dereferenced', 'copy', 'subsumes', 'StateProcessed.add', 'FCFG.contains / Earley loop'],
     'case = pair of feature structures, or one feature-free grammar, or one grammar with feature annotations; non-trivial = compatible pair with sharing or >3 paths / non-trivial grammar / non-empty instantiated language with at least one annotation',
     {'quick': '4000 pairs + 2104 plain grammars + 1500 annotated grammars; words <=3', 'thorough': 'x10, 8 hash seeds'})
+
+bounded_only('C17', 'bounded.c17',
+    'Bounded stand-in only: is_empty() compared with an exact emptiness oracle for reduced-form indexed grammars (least fixpoint of the sets of generating non-terminals per stack, validated against bounded derivation search) on random grammars with <=4 non-terminals, <=2 indices, 2-6 rules (several consumption rules per index and variable, recursion through the stack), under all permutations of the rule list (<=4 rules: exhaustive, else 12 sampled) for optim 0 and 7 and three permutations for the other optim values 1-8; remove_useless_rules() must not change the verdict; the intersection with a regular language (eps-NFA or Regex) is compared with the oracle on an independently built product grammar.',
+    'Trusted: specs/ig.py (exact for emptiness; the property quantifies over grammars in reduced form with start variable S). Aho marking over sets of frozensets with early exits and ordering heuristics: no invariant within reach of the VC generator short of the published correctness proof.',
+    ['IndexedGrammar.is_empty', '_duplication_processing', '_production_process', 'addrec_bis', 'addrec_ter', 'Rules', 'RuleOrdering', 'remove_useless_rules', 'FST.intersection'],
+    'case = one rule list (with a permutation seed) or a rule list with an automaton; non-trivial = non-empty language using a production and a consumption rule / non-empty intersection',
+    {'quick': '1500 grammars x (permutations x optim) + 500 intersections', 'thorough': 'x10'}, hashseeds={'quick': [0, 1], 'thorough': [0, 1, 2, 3]})
